@@ -10,7 +10,8 @@ lengths around the length of the answer.  About one history in sixteen runs on a
 1030 columns) with texts whose byte length straddles 64 (the stack buffer of put_vtextf) and 256/512/1024 (the
 scratch area and its doublings), in ascending order so that the exact sizes are met after each growth.
 exhaustive: every program of <= 3 drawing operations over a reduced alphabet on a 2x5 buffer, each under four
-auxiliary prologues (plain, mask, clip+translation, save+mask), followed by `restore` and `getcells`.
+auxiliary prologues (plain, mask, clip+translation, save+mask), followed by `restore` and `getcells`; the programs
+of <= 2 operations once more, followed by span and single-cell queries along the first line.
 Prints one JSON line: the input distribution actually produced.
 """
 import argparse, random, json, itertools, collections
@@ -386,6 +387,16 @@ def exhaustive():
                 out.append("restore")
                 out.append("getcells")
                 n += 1
+                if k <= 2:
+                    # the same program again, looked at through the single-cell and span queries (separate histories:
+                    # the span query has known findings)
+                    out.append("new 2 5")
+                    out.extend(pro)
+                    out.extend(prog)
+                    for c in range(-1, 6):
+                        out.append(f"getspan 0 {c} 8 7")
+                    out.extend(["getspan 1 3 2 5", "getspan 0 1 0 1", "getcell 0 1 2", "getcell 0 3 -1", "getcell 1 3 0"])
+                    n += 1
     for op in out:
         stats[op.split()[0]] += 1
     return out, n
@@ -395,7 +406,7 @@ lines = []
 info = {}
 if a.tier == "exhaustive":
     lines, n = exhaustive()
-    info = {"histories": n, "exhaustive_bound": "all programs of <= 3 operations over a 12-operation alphabet on a 2x5 buffer x 4 auxiliary prologues"}
+    info = {"histories": n, "exhaustive_bound": "all programs of <= 3 operations over a 12-operation alphabet on a 2x5 buffer x 4 auxiliary prologues (+ those of <= 2 operations under the span and single-cell queries)"}
 else:
     N = 2500 if a.tier == "quick" else 20000
     nwide = 0
